@@ -27,9 +27,15 @@ Zeros(s) == Len(SelectSeq(s, LAMBDA x : x = 0))
 
 \* mf = "concat": concatenation (empty values are invisible); mf = "join": values joined with a
 \* separator, so the output also shows where the empty values are
+\* mf = "first": the merge function keeps its first argument, so the value is one inserted value of
+\* the key: the first one under the stable sort, any one otherwise (an empty value shows as <<>>)
+One(id) == IF id = 0 THEN <<>> ELSE <<id>>
 ValueOk(ins, k, v, stable, mf) ==
     LET t == IF mf = "join" THEN TokensAll(ins, k) ELSE Tokens(ins, k) IN
-    IF stable THEN v = t
+    IF mf = "first" THEN
+        LET a == TokensAll(ins, k) IN
+        IF stable THEN v = One(a[1]) ELSE \E i \in 1..Len(a) : v = One(a[i])
+    ELSE IF stable THEN v = t
     ELSE Len(v) = Len(t) /\ SeqSet(v) = SeqSet(t) /\ Zeros(v) = Zeros(t)   \* non-zero ids are unique: a permutation
 
 \* entries: sequence of [k, v]
